@@ -595,9 +595,9 @@ impl Cfg {
             (Some(val1), Some(val2)) if val1 == val2 => Self {
                 value: Some(val1.clone()),
             },
-            (Some(val1), Some(val2)) => Self {
-                value: Some(format!("all({val1}, {val2})")),
-            },
+            // Go through the same normalization as every other cfg, so this compares equal to a user-written
+            // `all(..)` of the same predicates no matter how the tokens get printed
+            (Some(val1), Some(val2)) => Self::new(Some(&format!("all({val1}, {val2})"))),
         }
     }
 
